@@ -609,6 +609,10 @@ CHECKS = {
             "4000 scheduler steps / 30 s of idle fake time; ReplicaOnly clients and SendToReplicas=always have no primary path and are not judged for it",
             "dedicated clients and blocking commands are not part of the workload (a dedicated connection stays pinned to its node by design); RESP3 only; one wire per multiplexer",
             "pickReplica draws from the seeded util.FastRand seam",
+            "determinism self-test (vcheck.py selftest determinism sentinel-follow): variant calm 200 seeds x 9 processes 0 divergent; default variant 1 of 200 seeds divergent "
+            "(seed 424365, 6 of 96 repetitions under load). Source: the clean-up loop of a dead pipe (one fake millisecond per turn) races with the exit of that pipe's writer "
+            "goroutine, so a caller of a connection that was reset during its HELLO is released at T or T+1 ms and one idle tick appears or not before the next lock grant; "
+            "verdicts did not differ. No barrier was added here (the scheduler-level Settle barrier is to be switched on for this scenario by the lead)",
         ],
     },
 }
